@@ -5,7 +5,7 @@ from .C04 import QUICK_METHODS
 META = {
     "level": "other",
     "explanation": "Each real crypt_<m>_rn under havoc digest models (every digest value is explored by the formatting code): a successful output is NUL-terminated inside 384 bytes, consists only of passwd(5)-safe printable ASCII, begins with the setting's method prefix, ends in exactly the method's number of digest characters from the method's alphabet (preceded by '$' where the format has one), passes the real check_badsalt_chars and selects the same hash_algorithms[] entry through the real get_hashfn.",
-    "functions": ["crypt_{md5crypt,sha256crypt,sha512crypt,sunmd5,sha1crypt,nt,bigcrypt,descrypt,bsdicrypt}_rn", "check_badsalt_chars", "get_hashfn", "b64_from_24bit macros", "to64", "write_itoa64_*"],
+    "functions": ["crypt_{md5crypt,sha256crypt,sha512crypt,sunmd5,nt,bigcrypt,descrypt,bsdicrypt}_rn", "check_badsalt_chars", "get_hashfn", "b64_from_24bit macros", "to64", "write_itoa64_*"],
     "bounds": {"setting tail": "per method 8..20 symbolic bytes after the fixed prefix (rounds= spellings as separate queries)", "phrase": "<= 16", "digest": "all values"},
     "outside": ["bcrypt beyond its wrappers (BF_crypt is a contract stub here: 29 setting characters + 31 alphabet characters), yescrypt, scrypt, gost-yescrypt output shape", "salts longer than the bound"],
     "assumptions": ["setting passed to a method contains no byte rejected by check_badsalt_chars (do_crypt establishes it: C05)"],
@@ -19,7 +19,7 @@ def queries(tier, seed, build):
     names = ["md5crypt", "nt", "bigcrypt", "descrypt", "bsdicrypt", "sunmd5", "bcrypt", "bcrypt_x", "yescrypt", "scrypt"]
     if tier == "thorough":
         names += ["sunmd5-comma", "sunmd5-rounds", "sunmd5-comma-rounds", "sha256crypt", "sha256crypt-rounds",
-                  "sha512crypt", "sha512crypt-rounds", "sha1crypt"]
+                  "sha512crypt", "sha512crypt-rounds"]
     qs = [method_query(BY_NAME[n], "c06-" + n, timeout=900 if tier == "quick" else 3000) for n in names]
     qs.append(bf_core_query('c06-bcrypt-core'))
     return qs
